@@ -70,6 +70,13 @@ GAllowSeqs  == {<<0>>, <<7>>, <<11>>, <<12>>, GOthers}
 GForbidSeqs == {<<0>>, <<7>>, <<11>>, <<200>>, GOthers, <<0, 7>>, [i \in 1..12 |-> (i + 7) % 12]}
 GScales == {A \in (SUBSET (0..(PC - 1))) \ {{}} : (A \cap {1, 2, 3, 4, 5, 6, 8, 9}) \in {{}, {1, 2, 3, 4, 5, 6, 8, 9}}}
 GRuleDom == {Clamp(u) : u \in GInputs}
+\* thorough tier (Graph_Quantizer_big.cfg): E is edited on its own as well, and the middle of the range is added
+G2Notes  == (0..13) \cup (58..62) \cup (106..120)
+G2Inputs == {u \in {SU * n + d : n \in G2Notes, d \in {-3, -1, 1, 3, 9, 11}} : u < VMax} \cup {-SU}
+G2AllowSeqs  == GAllowSeqs \cup {<<4>>}
+G2ForbidSeqs == GForbidSeqs \cup {<<4>>, <<4, 11>>}
+G2Scales == {A \in (SUBSET (0..(PC - 1))) \ {{}} : (A \cap {1, 2, 3, 5, 6, 8, 9}) \in {{}, {1, 2, 3, 5, 6, 8, 9}}}
+G2RuleDom == {Clamp(u) : u \in G2Inputs}
 
 TypeOK == allowed \in Scales /\ last \in 0..Top /\ hist \in BOOLEAN
 
@@ -111,8 +118,10 @@ RuleLocal(A, u) ==
       N == {n \in W : \A m \in W : AbsQ(Volt(n) - u) <= AbsQ(Volt(m) - u)}
   IN Lowest(IF B # {} THEN B ELSE N)
 Thm_RuleLocal == Emit \/ \A A \in Scales : \A u \in 0..VMax : RuleLocal(A, u) = Rule(A, u)
-GRuleTab == [A \in GScales |-> [u \in GRuleDom |-> RuleLocal(A, u)]]
+GRuleTab == IF Emit /\ Inputs = GInputs THEN [A \in GScales |-> [u \in GRuleDom |-> RuleLocal(A, u)]] ELSE <<>>
 GRuleMemo(A, u) == GRuleTab[A][u]
+G2RuleTab == IF Emit /\ Inputs = G2Inputs THEN [A \in G2Scales |-> [u \in G2RuleDom |-> RuleLocal(A, u)]] ELSE <<>>
+G2RuleMemo(A, u) == G2RuleTab[A][u]
 (* every theorem here is trivially true in the replay-graph configuration (Emit), which only prints edges *)
 ASSUME Thm_RuleLocal
 ASSUME Thm_C08_mono
